@@ -8,6 +8,8 @@ import (
 	"encoding/json"
 	"fmt"
 	"os"
+	"sort"
+	"strings"
 	"sync"
 	"sync/atomic"
 	"testing"
@@ -261,6 +263,86 @@ func runCase(c Case, st *ev.Stats) (err error) {
 	// (d) nothing lost
 	if nq := run.Tracer.QueuedLen(); nq != len(txs) {
 		return fmt.Errorf("%d mutations were queued but %d transitions ran by quiescence", nq, len(txs))
+	}
+	// (d') nothing swallowed: a mutation that was answered Executed/Queued was queued, unless an IDENTICAL
+	// argument-less mutation (same type, same called set, no Multi state) was queued (the documented duplicate
+	// suppression) - a queued mutation calling other or more states does not stand in for it
+	{
+		type k struct {
+			op, states string
+			args       bool
+		}
+		keyOf := func(op string, states []string, args bool) k {
+			u := map[string]bool{}
+			for _, x := range states {
+				u[x] = true
+			}
+			var l []string
+			for x := range u {
+				l = append(l, x)
+			}
+			sort.Strings(l)
+			return k{op, strings.Join(l, ","), args}
+		}
+		answered := map[k]int{}
+		sample := map[k]string{}
+		count := func(st gen.Step, res am.Result, who string) {
+			// (Remove has a second legitimate shortcut: removing only inactive states from an idle machine
+			// is answered Executed without a transition - not judged here)
+			if st.Op != "add" && st.Op != "set" {
+				return
+			}
+			if res == am.Canceled {
+				return // rejected up front (queue limit) or run and canceled: either way nothing to account for
+			}
+			kk := keyOf(st.Op, st.States, st.Args)
+			answered[kk]++
+			sample[kk] = fmt.Sprintf("%s by %s -> %v", st, who, res)
+		}
+		for _, r := range rets {
+			count(r.step, r.res, "a caller")
+		}
+		for _, nr := range run.Runner.NestedResults {
+			count(nr.Step, nr.Res, "handler "+nr.Name)
+		}
+		queued := map[k]int{}
+		for _, mut := range run.Tracer.QueuedSnapshot() {
+			if mut.IsCheck || mut.IsAuto {
+				continue
+			}
+			op := ""
+			switch mut.Type {
+			case am.MutationAdd:
+				op = "add"
+			case am.MutationRemove:
+				op = "remove"
+			case am.MutationSet:
+				op = "set"
+			default:
+				continue
+			}
+			queued[keyOf(op, am.IndexToStates(run.Names, mut.Called), len(mut.Args) > 0)]++
+		}
+		for kk, n := range answered {
+			q := queued[kk]
+			if n <= q {
+				continue
+			}
+			multi := false
+			for _, x := range strings.Split(kk.states, ",") {
+				if run.Schema[x].Multi {
+					multi = true
+				}
+			}
+			if q == 0 || kk.args || multi {
+				var qs []string
+				for _, mut := range run.Tracer.QueuedSnapshot() {
+					qs = append(qs, fmt.Sprintf("%s%v args=%v check=%v auto=%v", mut.Type, am.IndexToStates(run.Names, mut.Called), len(mut.Args) > 0, mut.IsCheck, mut.IsAuto))
+				}
+				return fmt.Errorf("mutation swallowed: %s(%s) args=%v was answered Executed/Queued %d time(s) (e.g. %s) but queued only %d time(s), and no identical "+
+					"argument-less mutation stands in for it (multi=%v); queued: %v", kk.op, kk.states, kk.args, n, sample[kk], q, multi, qs)
+			}
+		}
 	}
 	qt := m.QueueTick()
 	// the queue tick counts exactly the tick-carrying (appended) mutations: at idle it equals the highest
